@@ -23,7 +23,26 @@ fn is_allowed_status(s: u8) -> bool {
 pub fn judge(rep: &mut Rep, prop: &str, kind: &str, bytes: &[u8]) {
     let nontrivial = bytes.len() >= 2 && PARAM_CMDS.contains(&bytes[0]);
     rep.input(bytes, nontrivial);
+    let t0 = std::time::Instant::now();
     let (d1, problems) = decode_checked(bytes);
+    // "fails to terminate": a decode of <= 7609 bytes costs microseconds (the deepest nesting bomb
+    // about a millisecond natively).  A case that took more than 5 s of wall time is decoded once
+    // more with the process CPU time measured around it; more than 5 CPU-seconds is four orders of
+    // magnitude beyond the normal cost and is reported (CPU time, so machine load cannot cause it).
+    if !cfg!(miri) && t0.elapsed().as_secs_f64() > 5.0 {
+        let c0 = crate::util::cpu_seconds();
+        let _ = decode_checked(bytes);
+        let spent = crate::util::cpu_seconds() - c0;
+        if spent > 5.0 {
+            rep.violation(
+                &format!("{}|fails-to-terminate|{}", prop, kind.split(':').next().unwrap_or("")),
+                format!("decoding this {}-byte input burns {:.0} CPU-seconds (normal cost: microseconds)", bytes.len(), spent),
+                bytes,
+            );
+            rep.stop = true;
+            return;
+        }
+    }
     match &d1 {
         Decoded::Panic(p) => {
             rep.violation(
@@ -252,6 +271,9 @@ pub fn run(rep: &mut Rep) {
             if !rep.mine(case) {
                 continue;
             }
+            if rep.stop {
+                return;
+            }
             let mut rng = Rng::derive(seed, "c04-seed", case);
             let mut g = G::new(&mut rng);
             g.nested = if i % 4 == 0 { Nested::All } else { Nested::Random };
@@ -278,6 +300,9 @@ pub fn run(rep: &mut Rep) {
             omsg.extend_from_slice(&encode(&other));
             mutate::splices(&msg, &omsg, &mut rng, if rep.light { 2 } else { 48 }, &mut |k, b| muts.push((k, b.to_vec())));
             for (k, b) in muts.iter() {
+                if rep.stop {
+                    break;
+                }
                 if rep.begin(&format!("{}/byte-{}", name, k)) {
                     judge(rep, "C04", k, b);
                 }
@@ -299,6 +324,9 @@ pub fn run(rep: &mut Rep) {
                     }
                 });
                 for (k, b) in smuts.iter() {
+                    if rep.stop {
+                        break;
+                    }
                     let kind = k.split(':').next().unwrap_or("");
                     if rep.begin(&format!("{}/struct-{}", name, kind)) {
                         rep.count_max("max_input_len", b.len() as u64);
@@ -360,7 +388,7 @@ pub fn run(rep: &mut Rep) {
         }
         for (kind, a, b_, c) in specs {
             k += 1;
-            if !rep.mine(k) {
+            if !rep.mine(k) || rep.stop {
                 continue;
             }
             let mut b = vec![cmd];
